@@ -8,12 +8,8 @@
      kind does not exist yet -> diff skipped and noted) and diffs,
   5. reports every "viol" line through chk.violation with a stable key.
 
-Canonical result strings expected from run_model (one per case, aligned):
-  dec_stream : "<end> <s0>,<s1>,..."          end = eof | err:<Variant> | panic
-  dec_subset : "<end> <rate>/<ch>/<bps>:<s0>,<s1>,...|<rate>/<ch>/<bps>:..."   (one group per frame)
-  struct     : "ok <rewritten hex> <c0s0>,<c0s1>,...;<c1s0>,..."  or  "err:<Variant>"  or "panic"
-  enc_size   : "<max frame bits allowed by the model's bound>"
-Only the class of <end> (eof/ok, err, panic) is compared strictly; the variant is logged."""
+run_model returns result dicts aligned with the cases; codec_common.compare(case, result) decides
+(class of the ending and all payloads strictly, error variant softly)."""
 import json
 import os
 import re
@@ -197,17 +193,17 @@ def model_diff(chk, kind, cases, stage, property_holds=None):
         return 0, 0
     dis = soft = 0
     for c, r in zip(cases, res):
-        ok, note = compare(c, r)
+        bad, note = codec_common.compare(c, r)
         if note:
             soft += 1
-        if not ok:
+        if bad:
             dis += 1
             if dis <= 3:
                 chk.violation("correspondence:%s:%s" % (stage, kind),
-                              "model and implementation differ on a %s case (%s profile): implementation %s, model %s" % (kind, c.get("profile"), canon(c)[:300], (r or "")[:300]),
-                              {"case": {k: c[k] for k in c if k != "t"}, "model": r})
+                              "model and implementation differ on a %s case (%s profile): %s" % (kind, c.get("profile"), bad),
+                              {"case": {k: c[k] for k in c if k != "t"}, "model": r, "difference": bad})
     if soft:
-        chk.notes.append("%d %s cases agree in class and payload but differ in error variant" % (soft, kind))
+        chk.notes.append("%d of %d %s cases agree in class and payload with a soft difference (error variant / metadata rules outside the codec model)" % (soft, len(cases), kind))
     return len(cases), dis
 
 
